@@ -136,6 +136,7 @@ def run(ck, facts, tier):
     prims.rule_null_array(ck, facts, "C01.prims")
     prims.rule_site_table(ck, facts, "C05.site-table")
     prims.rule_scheduler_heap(ck, facts, "C01.prims")
+    prims.rule_unit_merge(ck, facts, "C01.unit-merge")
     from . import c11
 
     c11.rule_closure_lifetime(ck, facts)
